@@ -223,7 +223,7 @@ func C02(c *core.Ctx) {
 			}
 		})
 		var effects []ssa.Instruction
-		for _, ci := range core.FindCalls(pii, idAfterRecvInterest, idSendPacket, idProcOutInterest, idSendInterest) {
+		for _, ci := range core.FindCallsDeep(pii, idAfterRecvInterest, idSendPacket, idProcOutInterest, idSendInterest) {
 			effects = append(effects, ci)
 		}
 		c.Floor("R2.1", "upstream emission effects in processIncomingInterest", len(effects), 2)
@@ -267,7 +267,7 @@ func C02(c *core.Ctx) {
 				{"cshit", []core.Lit{pos(pending), neg(serving), neg(csFound), neg(csData), neg(csWire)}, []int{2, 3}},
 			}
 			for _, g := range gates {
-				res := core.Gate(pii, effects, g.lits...)
+				res := core.GateDeep(pii, effects, g.lits...)
 				key := "drop-gate:" + g.name
 				missing := ""
 				for _, i := range g.need {
@@ -285,7 +285,7 @@ func C02(c *core.Ctx) {
 				}
 			}
 			// the cache answer goes through AfterContentStoreHit on the hit path
-			hits := core.FindCalls(pii, core.CalleeID{Pkg: "fw/fw", Recv: "Strategy", Name: "AfterContentStoreHit"})
+			hits := core.FindCallsDeep(pii, core.CalleeID{Pkg: "fw/fw", Recv: "Strategy", Name: "AfterContentStoreHit"})
 			c.Decide(len(hits) == 1, "R2.1", "cshit-answer", p.Pos(pii.Pos()), "exactly one AfterContentStoreHit call", fmt.Sprintf("%d AfterContentStoreHit calls", len(hits)))
 
 			// R2.2: decrement precedes emissions when a hop limit is present.
@@ -309,7 +309,7 @@ func C02(c *core.Ctx) {
 			}
 
 			// NextHopFaceId shortcut: receiver is GetFace(*packet.NextHopFaceID)
-			for _, ci := range core.FindCalls(pii, idSendPacket) {
+			for _, ci := range core.FindCallsDeep(pii, idSendPacket) {
 				recv, _ := core.CallArgs(ci.Common())
 				ok := false
 				if cl, isC := core.Strip(recv).(*ssa.Call); isC {
@@ -322,7 +322,7 @@ func C02(c *core.Ctx) {
 
 			// R2.3(b): next hops handed to the strategy come from FindNextHopsEnc(name|hint)
 			sl := &core.Slicer{P: p}
-			for _, ci := range core.FindCalls(pii, idAfterRecvInterest) {
+			for _, ci := range core.FindCallsDeep(pii, idAfterRecvInterest) {
 				_, args := core.CallArgs(ci.Common())
 				if len(args) != 4 {
 					c.Und("R2.3", "strategy-nexthops", c.Pos(ci), "unexpected AfterReceiveInterest signature")
@@ -410,7 +410,7 @@ func C02(c *core.Ctx) {
 				return 0, 0
 			}}
 			cutNotReaching, perR := core.CutEdges(pii, neg(reaching))
-			for _, ci := range core.FindCalls(pii, idFindNextHops) {
+			for _, ci := range core.FindCallsDeep(pii, idFindNextHops) {
 				_, fargs := core.CallArgs(ci.Common())
 				flows := core.FlowPath(fargs[0], ci, isHintName, cutNotReaching, nil)
 				flowsAtAll := core.FlowPath(fargs[0], ci, isHintName, nil, nil)
@@ -442,7 +442,7 @@ func C02(c *core.Ctx) {
 	c.Floor("R2.5", "Strategy implementations", len(impls), 2)
 	if sendI != nil {
 		// SendInterest forwards its own nexthop/inFace parameters unchanged
-		for _, ci := range core.FindCalls(sendI, idProcOutInterest) {
+		for _, ci := range core.FindCallsDeep(sendI, idProcOutInterest) {
 			_, args := core.CallArgs(ci.Common())
 			ok := len(args) == 4 && args[2] == ssa.Value(sendI.Params[3]) && args[3] == ssa.Value(sendI.Params[4]) && args[0] == ssa.Value(sendI.Params[1])
 			c.Decide(ok, "R2.3", "SendInterest-passthrough", c.Pos(ci), "SendInterest passes packet, nexthop and inFace through unchanged", "SendInterest does not pass its packet/nexthop/inFace parameters through unchanged")
@@ -460,7 +460,7 @@ func C02(c *core.Ctx) {
 	// R2.4: outgoing pipeline gates.
 	if poi != nil {
 		interest := findL3(poi, poi.Params[1], "Interest")
-		sends := core.FindCalls(poi, idSendPacket)
+		sends := core.FindCallsDeep(poi, idSendPacket)
 		c.Floor("R2.4", "SendPacket in processOutgoingInterest", len(sends), 1)
 		for _, ci := range sends {
 			recv, _ := core.CallArgs(ci.Common())
@@ -516,25 +516,25 @@ func C02(c *core.Ctx) {
 				}
 				return core.Iff(op == token.EQL)
 			}}
-			res := core.Gate(poi, []ssa.Instruction{ci}, neg(same), pos(adhoc))
+			res := core.GateDeep(poi, []ssa.Instruction{ci}, neg(same), pos(adhoc))
 			c.Decide(res.OK && res.PerLit[0] > 0, "R2.4", "same-face-gate", c.Pos(ci),
 				"send unreachable when outgoing face == incoming face on a non-ad-hoc link",
 				"the Interest can be sent back out of the point-to-point face it arrived on (same-face ∧ ¬ad-hoc drop gate missing, weakened or on the wrong value); path: "+p.PathString(res.Path))
 			if interest != nil {
-				res = core.Gate(poi, []ssa.Instruction{ci}, neg(atomFieldNonNil("hoplimit-present", interest, "HopLimitV")), neg(atomHopZero(interest)), neg(atomNonLocal(recv)))
+				res = core.GateDeep(poi, []ssa.Instruction{ci}, neg(atomFieldNonNil("hoplimit-present", interest, "HopLimitV")), neg(atomHopZero(interest)), neg(atomNonLocal(recv)))
 				c.Decide(res.OK && res.PerLit[1] > 0 && res.PerLit[2] > 0, "R2.4", "hop0-nonlocal-gate", c.Pos(ci),
 					"send unreachable with hop limit 0 towards a non-local face",
 					"an Interest whose hop limit reached 0 can be sent to a non-local face; path: "+p.PathString(res.Path))
 			}
 			// out-record ↔ send pairing
-			outRec := core.FindCalls(poi, core.CalleeID{Pkg: "fw/table", Recv: "PitEntry", Name: "InsertOutRecord"})
+			outRec := core.FindCallsDeep(poi, core.CalleeID{Pkg: "fw/table", Recv: "PitEntry", Name: "InsertOutRecord"})
 			if len(outRec) == 0 {
 				c.Viol("R2.4", "out-record", c.Pos(ci), "no InsertOutRecord in processOutgoingInterest: forwarded Interests leave no out-record (no suppression, no dead-nonce bookkeeping)")
 			}
 			for _, or := range outRec {
 				isOut := func(in ssa.Instruction) bool { return in == ssa.Instruction(or) }
-				c.Decide(core.Precedes(poi, ci, isOut), "R2.4", "out-record-before-send", c.Pos(or), "every path to the send inserts the out-record first", "the Interest can be sent without an out-record being inserted")
-				fr := core.MustFollow(poi, core.After(or), func(in ssa.Instruction) bool { return in == ssa.Instruction(ci) }, nil)
+				c.Decide(core.PrecedesDeep(poi, ci, isOut), "R2.4", "out-record-before-send", c.Pos(or), "every path to the send inserts the out-record first", "the Interest can be sent without an out-record being inserted")
+				fr := core.MustFollowDeep(poi, core.After(or), func(in ssa.Instruction) bool { return in == ssa.Instruction(ci) }, nil)
 				c.Decide(fr.OK, "R2.4", "send-after-out-record", c.Pos(or), "every path from InsertOutRecord reaches the send", "an out-record can be inserted without the Interest being sent")
 				_, oargs := core.CallArgs(or.Common())
 				c.Decide(len(oargs) == 2 && oargs[1] == ssa.Value(poi.Params[3]), "R2.4", "out-record-face", c.Pos(or), "out-record is keyed by nexthop", "out-record is keyed by a face other than nexthop")
@@ -551,7 +551,7 @@ func C02(c *core.Ctx) {
 			continue
 		}
 		c.Funcs[core.FuncName(fn)] = true
-		sends := core.FindCalls(fn, idSendInterest, idProcOutInterest)
+		sends := core.FindCallsDeep(fn, idSendInterest, idProcOutInterest)
 		if len(sends) == 0 {
 			c.Und("R2.5", "strategy-sends:"+tn, p.Pos(fn.Pos()), "strategy never sends")
 			continue
@@ -621,7 +621,7 @@ func C02(c *core.Ctx) {
 		for _, s := range sends {
 			effs = append(effs, s)
 		}
-		res := core.Gate(fn, effs, neg(hasMore), neg(nonceNeq), neg(within))
+		res := core.GateDeep(fn, effs, neg(hasMore), neg(nonceNeq), neg(within))
 		key := "suppression-gate:" + tn
 		switch {
 		case !res.OK:
@@ -652,7 +652,7 @@ func C02(c *core.Ctx) {
 		case "BestRoute":
 			// comparator
 			okCmp := false
-			for _, ci := range core.FindCalls(fn, core.CalleeID{Pkg: "sort", Name: "Slice"}, core.CalleeID{Pkg: "sort", Name: "SliceStable"}) {
+			for _, ci := range core.FindCallsDeep(fn, core.CalleeID{Pkg: "sort", Name: "Slice"}, core.CalleeID{Pkg: "sort", Name: "SliceStable"}) {
 				args := ci.Common().Args
 				if len(args) != 2 {
 					continue
@@ -666,7 +666,7 @@ func C02(c *core.Ctx) {
 				c.Decide(okCmp, "R2.5", "best-route-comparator", c.Pos(ci), "sort comparator is Cost[i] < Cost[j] (ascending cost)", "best-route's sort comparator does not order next hops by ascending Cost")
 			}
 			if !okCmp {
-				if len(core.FindCalls(fn, core.CalleeID{Pkg: "sort", Name: "Slice"}, core.CalleeID{Pkg: "sort", Name: "SliceStable"})) == 0 {
+				if len(core.FindCallsDeep(fn, core.CalleeID{Pkg: "sort", Name: "Slice"}, core.CalleeID{Pkg: "sort", Name: "SliceStable"})) == 0 {
 					c.Viol("R2.5", "best-route-comparator", p.Pos(fn.Pos()), "best-route does not sort the next hops by cost before choosing")
 				}
 			}
@@ -690,9 +690,9 @@ func C02(c *core.Ctx) {
 				}
 				c.Decide(okStop, "R2.5", fmt.Sprintf("best-route-stop-after-success#%d", i), c.Pos(ci), "after a successful send no further send is reachable", "best-route keeps forwarding after a successful send (or ignores the result): more than the lowest-cost usable next hop receives the Interest")
 				c.Decide(core.InLoop(ci.Block()), "R2.5", fmt.Sprintf("best-route-tries-all#%d", i), c.Pos(ci), "send is inside the loop over next hops", "best-route does not iterate over the next hops")
-				sortCalls := core.FindCalls(fn, core.CalleeID{Pkg: "sort", Name: "Slice"}, core.CalleeID{Pkg: "sort", Name: "SliceStable"})
+				sortCalls := core.FindCallsDeep(fn, core.CalleeID{Pkg: "sort", Name: "Slice"}, core.CalleeID{Pkg: "sort", Name: "SliceStable"})
 				if len(sortCalls) > 0 {
-					c.Decide(core.Precedes(fn, ci, func(in ssa.Instruction) bool { return in == ssa.Instruction(sortCalls[0]) }), "R2.5", fmt.Sprintf("best-route-sort-before-send#%d", i), c.Pos(ci), "sort precedes every send", "a send is reachable before the next hops are sorted by cost")
+					c.Decide(core.PrecedesDeep(fn, ci, func(in ssa.Instruction) bool { return in == ssa.Instruction(sortCalls[0]) }), "R2.5", fmt.Sprintf("best-route-sort-before-send#%d", i), c.Pos(ci), "sort precedes every send", "a send is reachable before the next hops are sorted by cost")
 				}
 			}
 		case "Multicast":
@@ -709,7 +709,7 @@ func C02(c *core.Ctx) {
 							okAll = false
 						}
 						// and no function exit from inside the body before the send
-						fr := core.MustFollow(fn, core.Point{Block: s, Idx: 0}, func(in ssa.Instruction) bool { return in == ssa.Instruction(ci) }, func(in ssa.Instruction) bool { return in.Block() == h })
+						fr := core.MustFollowDeep(fn, core.Point{Block: s, Idx: 0}, func(in ssa.Instruction) bool { return in == ssa.Instruction(ci) }, func(in ssa.Instruction) bool { return in.Block() == h })
 						if !fr.OK {
 							okAll = false
 						}
@@ -718,7 +718,7 @@ func C02(c *core.Ctx) {
 						okAll = false
 					}
 					// after a send every path comes back to the loop header (no break/return)
-					if fr := core.MustFollow(fn, core.After(ci), func(in ssa.Instruction) bool { return in.Block() == h }, nil); !fr.OK {
+					if fr := core.MustFollowDeep(fn, core.After(ci), func(in ssa.Instruction) bool { return in.Block() == h }, nil); !fr.OK {
 						okAll = false
 					}
 				}
@@ -782,7 +782,7 @@ func C02(c *core.Ctx) {
 			return 0, 0
 		}}
 		for _, a := range []*core.Atom{otherFace, sameNonce} {
-			res := core.Gate(ii, dupReturns, pos(a))
+			res := core.GateDeep(ii, dupReturns, pos(a))
 			c.Decide(res.OK && res.PassEdges > 0, "R2.6", "dup-enter-gate:"+a.Name, p.Pos(ii.Pos()),
 				"'duplicate' is returned only on the edge asserting "+a.Name,
 				"InsertInterest can report a duplicate without "+a.Name+" having been established (a retransmission from the same face, or a different nonce, would be dropped as a loop); path: "+p.PathString(res.Path))
@@ -791,7 +791,7 @@ func C02(c *core.Ctx) {
 
 	// R2.7: expiry finalizer moves out-record nonces to the DNL.
 	if fin := c.Fn("R2.7", "fw/fw", "Thread", "finalizeInterest"); fin != nil {
-		ins := core.FindCalls(fin, core.CalleeID{Pkg: "fw/table", Recv: "DeadNonceList", Name: "Insert"})
+		ins := core.FindCallsDeep(fin, core.CalleeID{Pkg: "fw/table", Recv: "DeadNonceList", Name: "Insert"})
 		okIns := false
 		sl := &core.Slicer{P: p}
 		for _, ci := range ins {
@@ -826,7 +826,7 @@ func C02(c *core.Ctx) {
 	}
 	if nt := c.Fn("R2.7", "fw/fw", "", "NewThread"); nt != nil {
 		ok := false
-		for _, ci := range core.FindCalls(nt, core.CalleeID{Pkg: "fw/table", Name: "NewPitCS"}) {
+		for _, ci := range core.FindCallsDeep(nt, core.CalleeID{Pkg: "fw/table", Name: "NewPitCS"}) {
 			if mc, isMC := core.Strip(ci.Common().Args[0]).(*ssa.MakeClosure); isMC {
 				if strings.HasPrefix(mc.Fn.Name(), "finalizeInterest") {
 					ok = true
@@ -844,10 +844,10 @@ func C02(c *core.Ctx) {
 			_, ok = core.FieldOf(cl.Call.Value, "onExpiration")
 			return ok
 		}
-		rem := core.FindCalls(up, core.CalleeID{Pkg: "fw/table", Recv: "PitCsTree", Name: "RemoveInterest"})
+		rem := core.FindCallsDeep(up, core.CalleeID{Pkg: "fw/table", Recv: "PitCsTree", Name: "RemoveInterest"})
 		c.Floor("R2.7", "RemoveInterest in Update", len(rem), 1)
 		for _, r := range rem {
-			c.Decide(core.Precedes(up, r, isExp) && core.InLoop(r.Block()), "R2.7", "expiry-callback-before-remove", c.Pos(r), "onExpiration(entry) precedes RemoveInterest(entry) in the reaper loop", "an expired PIT entry is removed without its expiry callback having run (its nonces never reach the dead nonce list)")
+			c.Decide(core.PrecedesDeep(up, r, isExp) && core.InLoop(r.Block()), "R2.7", "expiry-callback-before-remove", c.Pos(r), "onExpiration(entry) precedes RemoveInterest(entry) in the reaper loop", "an expired PIT entry is removed without its expiry callback having run (its nonces never reach the dead nonce list)")
 		}
 	}
 
